@@ -10,6 +10,7 @@
 -/
 import Galaxy.Lemmas.NetfilterFrame
 import Galaxy.Lemmas.NetfilterSock
+import Galaxy.Lemmas.NetfilterServer
 
 namespace Galaxy.Props.C14
 
@@ -246,6 +247,117 @@ theorem frame_foreign (hash : String → String) (order : Table → List String)
 
 example : galaxyChain "DOCKER" = false ∧ galaxyChain "KUBE-SERVICES" = false ∧ galaxyChain "KUBE-HPX" = false
     ∧ galaxyChain "POSTROUTING" = false := by decide
+
+/-! ## the daemon's setup / cleanup of one pod (pkg/galaxy/server.go) -/
+
+/-- The order of the per-pod protocol as factgen reads it from pkg/galaxy/server.go: the sockets are opened, then
+    the port file is written, THEN SetupPortMapping runs; a failed ADD and every DEL run cleanupPortMapping
+    (CloseHostports, then cleanIPtables from the port file, which is removed only after a successful clean). -/
+theorem fact_server_protocol :
+    (Generated.Netfilter.portFileSavedBeforeSetup && Generated.Netfilter.hostportsOpenedBeforeSave
+      && Generated.Netfilter.addFailureRunsCleanup && Generated.Netfilter.delRunsCleanup
+      && Generated.Netfilter.cleanupClosesHostports && Generated.Netfilter.cleanupMissingFileIsNoop
+      && Generated.Netfilter.cleanupSkipsEmptyRecord && Generated.Netfilter.cleanupRemovesFileAfterClean) = true := by
+  decide
+
+/-- "Setting up … and cleaning them up again leaves no chain or rule of that pod behind", at the level of the
+    daemon and for a setup that FAILS: whichever iptables call of SetupPortMapping fails (k = 0 the restore,
+    k = i+1 the EnsureRule of port i), after the ADD's own cleanup no chain of the pod exists, KUBE-HOSTPORTS holds
+    none of its rules, every other chain except KUBE-MARK-MASQ is as before, and (k ≥ 1) the port file is gone.
+    This rests on the port file being written before SetupPortMapping (`portFileSavedBeforeSetup`): the cleanup
+    removes exactly what the file lists. -/
+theorem failed_add_leaves_nothing (hash : String → String) (T : Table) (ps : List Port) (k : Nat)
+    (hwf : wfPorts ps = true) (hinj : HashInjOn hash (ps.map encode)) (hne : ps ≠ []) (hkl : k ≤ ps.length)
+    (hkh : Tbl.has T hostportsChain = true)
+    (habs : ∀ p ∈ ps, Tbl.get T (chainName hash p) = none)
+    (hunref : ∀ p ∈ ps, referenced T (chainName hash p) = false) :
+    (addPod hash (some k) ⟨T, none⟩ ps).2 = false ∧
+    (∀ p ∈ ps, Tbl.get (addPod hash (some k) ⟨T, none⟩ ps).1.T (chainName hash p) = none) ∧
+    (∀ p ∈ ps, jumpRule hash p ∉ (Tbl.get (addPod hash (some k) ⟨T, none⟩ ps).1.T hostportsChain).getD []) ∧
+    (∀ c, c ≠ markMasqChain → c ∉ ps.map (chainName hash) →
+      Tbl.get (addPod hash (some k) ⟨T, none⟩ ps).1.T c = Tbl.get T c) ∧
+    (0 < k → (addPod hash (some k) ⟨T, none⟩ ps).1.file = none) := by
+  obtain ⟨rs, hk⟩ := has_iff.mp hkh
+  obtain ⟨h1, h2, g⟩ := failedAdd_spec hash T ps rs k hne hkl hk (chainNames_nodup hwf hinj) habs hunref
+  have hkn : hostportsChain ∉ ps.map (chainName hash) := fun h => by
+    have := names_prefix h; rw [hostports_no_prefix] at this; cases this
+  refine ⟨h1, ?_, ?_, ?_, ?_⟩
+  · intro p hp; rw [g]; simp [List.mem_map_of_mem hp]
+  · intro p hp
+    rw [g]
+    simp only [hkn, if_false, markMasq_ne_hostports.symm, hk, Option.getD_some]
+    exact jump_not_in_prior hk hunref _ (List.mem_map_of_mem hp)
+  · intro c hc hcn; rw [g]; simp [hc, hcn]
+  · intro hpos
+    rw [h2]; simp [Nat.pos_iff_ne_zero.mp hpos]
+
+/-- Finding `cleanup-fails-when-chains-missing` (replayed as corpus/C14/srv-cleanup-fails-when-chains-missing.ops):
+    when it is the restore itself that fails (k = 0) nothing was created, but the port file was written; the cleanup
+    then fails at its first `iptables -C` (jump target chain missing), so the file stays — and every later DEL fails
+    the same way until the GC removes the file. -/
+theorem failed_restore_keeps_port_file_counter :
+    ∃ (T : Table) (ps : List Port),
+      (addPod id (some 0) ⟨T, none⟩ ps).1.file = some ps ∧
+      (delPod id none (addPod id (some 0) ⟨T, none⟩ ps).1).2 = false ∧
+      (delPod id none (addPod id (some 0) ⟨T, none⟩ ps).1).1.file = some ps ∧
+      (gcPod id (addPod id (some 0) ⟨T, none⟩ ps).1).file = none := by
+  refine ⟨[("KUBE-HOSTPORTS", [])], [⟨80, "TCP", 8080, "web-0", "10.0.0.6", ""⟩], ?_⟩
+  decide
+
+/-- A successful ADD followed by the DEL: afterwards nothing of the pod is left — no chain, no KUBE-HOSTPORTS
+    rule, no port file — and every chain except KUBE-MARK-MASQ is as before. -/
+theorem add_then_del_leaves_nothing (hash : String → String) (T : Table) (ps : List Port)
+    (hwf : wfPorts ps = true) (hinj : HashInjOn hash (ps.map encode)) (hne : ps ≠ [])
+    (hkh : Tbl.has T hostportsChain = true)
+    (hunref : ∀ p ∈ ps, referenced T (chainName hash p) = false) :
+    (addPod hash none ⟨T, none⟩ ps).2 = true ∧
+    (delPod hash none (addPod hash none ⟨T, none⟩ ps).1).2 = true ∧
+    (delPod hash none (addPod hash none ⟨T, none⟩ ps).1).1.file = none ∧
+    (∀ p ∈ ps, Tbl.get (delPod hash none (addPod hash none ⟨T, none⟩ ps).1).1.T (chainName hash p) = none) ∧
+    (∀ c, c ≠ markMasqChain → c ∉ ps.map (chainName hash) →
+      Tbl.get (delPod hash none (addPod hash none ⟨T, none⟩ ps).1).1.T c = Tbl.get T c) := by
+  obtain ⟨rs, hk⟩ := has_iff.mp hkh
+  have hnd := chainNames_nodup hwf hinj
+  obtain ⟨T2, h2, g2⟩ := add_spec hash T ps rs hne hk hnd hunref
+  obtain ⟨T4, h4, g4⟩ := del_spec hash T T2 ps rs _ hne hk hnd hunref (jumpRules_nodup hnd) (fun _ h => h) g2
+  rw [h2]; simp only; rw [h4]; simp only
+  refine ⟨trivial, trivial, trivial, ?_, ?_⟩
+  · intro p hp; rw [g4]; simp [List.mem_map_of_mem hp]
+  · intro c hc hcn; rw [g4]; simp [hc, hcn]
+
+/-- A DEL in which iptables call `j` fails (a DeleteRule or the restore) reports the failure and keeps the port
+    file; the retried DEL then succeeds and leaves nothing of the pod. -/
+theorem faulty_del_then_retry_leaves_nothing (hash : String → String) (T : Table) (ps : List Port) (j : Nat)
+    (hwf : wfPorts ps = true) (hinj : HashInjOn hash (ps.map encode)) (hne : ps ≠ []) (hjl : j ≤ ps.length)
+    (hkh : Tbl.has T hostportsChain = true)
+    (hunref : ∀ p ∈ ps, referenced T (chainName hash p) = false) :
+    (delPod hash (some j) (addPod hash none ⟨T, none⟩ ps).1).2 = false ∧
+    (delPod hash (some j) (addPod hash none ⟨T, none⟩ ps).1).1.file = some ps ∧
+    (delPod hash none (delPod hash (some j) (addPod hash none ⟨T, none⟩ ps).1).1).2 = true ∧
+    (delPod hash none (delPod hash (some j) (addPod hash none ⟨T, none⟩ ps).1).1).1.file = none ∧
+    (∀ p ∈ ps, Tbl.get (delPod hash none (delPod hash (some j) (addPod hash none ⟨T, none⟩ ps).1).1).1.T
+        (chainName hash p) = none) ∧
+    (∀ c, c ≠ markMasqChain → c ∉ ps.map (chainName hash) →
+      Tbl.get (delPod hash none (delPod hash (some j) (addPod hash none ⟨T, none⟩ ps).1).1).1.T c = Tbl.get T c) := by
+  obtain ⟨rs, hk⟩ := has_iff.mp hkh
+  have hnd := chainNames_nodup hwf hinj
+  obtain ⟨T2, h2, g2⟩ := add_spec hash T ps rs hne hk hnd hunref
+  obtain ⟨T3, l, h3, hl1, hl2, g3⟩ := faultyDel_spec hash T T2 ps rs j hne hjl hk hnd hunref g2
+  obtain ⟨T4, h4, g4⟩ := del_spec hash T T3 ps rs l hne hk hnd hunref hl1 hl2 g3
+  rw [h2]; simp only; rw [h3]; simp only; rw [h4]; simp only
+  refine ⟨trivial, trivial, trivial, trivial, ?_, ?_⟩
+  · intro p hp; rw [g4]; simp [List.mem_map_of_mem hp]
+  · intro c hc hcn; rw [g4]; simp [hc, hcn]
+
+/-- non-vacuity: the witness table of `setup_clean_inverse` also satisfies the hypotheses of the server-level
+    theorems (the pod's chains neither exist nor are referenced) -/
+example :
+    let T : Table := [("PREROUTING", [["-j", "DOCKER"]]), ("DOCKER", [["-j", "RETURN"]]),
+      ("KUBE-HOSTPORTS", [["-p", "tcp", "--dport", "99", "-j", "KUBE-HP-OTHER"]]),
+      ("KUBE-HP-OTHER", [["-j", "DNAT", "--to-destination", "10.0.0.9:99"]])]
+    let ps : List Port := [⟨53, "TCP", 53, "dns-0", "10.0.0.5", ""⟩, ⟨53, "UDP", 53, "dns-0", "10.0.0.5", ""⟩]
+    ps ≠ [] ∧ (∀ p ∈ ps, Tbl.get T (chainName id p) = none) ∧ ∀ p ∈ ps, referenced T (chainName id p) = false := by
+  decide
 
 /-! ## sockets -/
 
